@@ -21,9 +21,9 @@ type Val struct {
 }
 
 type SeqVal struct {
-	Arr  string // (Array Int elemSort)
-	N    string // Int
-	Elem types.Type
+	Arr   string // (Array Int elemSort)
+	N     string // Int
+	Elem  types.Type
 	ESort string
 }
 
@@ -95,35 +95,35 @@ func (e *Env) with(name string, v Val) *Env {
 
 // Exec is the symbolic executor for one function.
 type Exec struct {
-	g        *Global
-	c        *Ctx
-	fi       *FuncInfo
-	con      *Contract
-	obligs   []*Obligation
-	names    map[string]int
-	ord      map[ast.Node]int
-	loopOrd  map[ast.Node]int
-	anchors  map[ast.Stmt][]string // statement -> anchors contained
-	entry    *State
-	results  []types.Object // pseudo objects for results
-	ghostObj map[string]types.Type
-	modRefs  []string // refs (entry) that may be written, per modifies
-	modAll   bool
-	alloc0   string
-	loopStack []*loopCtx
-	retStates []*State
-	curLoopDepth int
-	baseNames map[string]Val
-	baseFuncs map[string]Val
-	usedContracts map[string]bool
-	lastPerm [2]string
+	g               *Global
+	c               *Ctx
+	fi              *FuncInfo
+	con             *Contract
+	obligs          []*Obligation
+	names           map[string]int
+	ord             map[ast.Node]int
+	loopOrd         map[ast.Node]int
+	anchors         map[ast.Stmt][]string // statement -> anchors contained
+	entry           *State
+	results         []types.Object // pseudo objects for results
+	ghostObj        map[string]types.Type
+	modRefs         []string // refs (entry) that may be written, per modifies
+	modAll          bool
+	alloc0          string
+	loopStack       []*loopCtx
+	retStates       []*State
+	curLoopDepth    int
+	baseNames       map[string]Val
+	baseFuncs       map[string]Val
+	usedContracts   map[string]bool
+	lastPerm        [2]string
 	curLoopWritable []string
-	inlineMode bool
-	scannerHandle string
-	codeEnv *Env
-	curLoopOrd int
-	usedPoints map[int]bool
-	inlineResult *Val
+	inlineMode      bool
+	scannerHandle   string
+	codeEnv         *Env
+	curLoopOrd      int
+	usedPoints      map[int]bool
+	inlineResult    *Val
 }
 
 type loopCtx struct {
@@ -387,6 +387,10 @@ func (x *Exec) assumeWF(st *State, v Val) {
 		return // inside contract expressions terms may mention bound variables
 	}
 	switch u := v.Ty.Underlying().(type) {
+	case *types.Pointer:
+		if _, ok := u.Elem().Underlying().(*types.Struct); ok && x.c.sortOf(v.Ty) == x.c.sortOf(u.Elem()) {
+			x.assumeWF(st, Val{T: v.T, Ty: u.Elem()})
+		}
 	case *types.Slice:
 		t := v.T
 		if !isAtom(t) {
@@ -408,6 +412,9 @@ func (x *Exec) assumeWF(st *State, v Val) {
 			if _, ok := si.ftypes[i].Underlying().(*types.Slice); ok {
 				x.assumeWF(st, Val{T: x.c.define(f, sortSlice, x.c.structGet(s, f, v.T)), Ty: si.ftypes[i]})
 			}
+			if mt, ok := si.ftypes[i].Underlying().(*types.Map); ok {
+				x.assumeWF(st, Val{T: x.c.define(f, x.c.mapSort(mt), x.c.structGet(s, f, v.T)), Ty: si.ftypes[i]})
+			}
 		}
 		_ = u
 	case *types.Map:
@@ -418,7 +425,14 @@ func (x *Exec) assumeWF(st *State, v Val) {
 			return
 		}
 		ms := x.c.mapSort(u)
+		key := "wfmap:" + v.T
+		if x.c.declared[key] {
+			return
+		}
+		x.c.declared[key] = true
 		x.c.assume("true", fmt.Sprintf("(>= (|%s.size| %s) 0)", ms, v.T))
+		// size is the cardinality of the domain: a map with a key is not empty
+		x.c.assume("true", fmt.Sprintf("(forall ((k %s)) (! (=> (select (|%s.dom| %s) k) (>= (|%s.size| %s) 1)) :pattern ((select (|%s.dom| %s) k))))", x.c.sortOf(u.Key()), ms, v.T, ms, v.T, ms, v.T))
 	}
 }
 
